@@ -140,6 +140,8 @@ def is_stop_offer(e, fi):
 
 
 def check(run, prog, tier):
+    from . import model as _model
+    _model.audit(run, prog, 'C10')
     run.explanation = (
         "The offer task is a small coroutine: all its paths are enumerated with a CancelledError injected at every "
         "await (that is how stop() ends it); the ordered sequence of sleeps and offers on each path is compared "
